@@ -184,6 +184,10 @@ func moveOntoOwnTarget(cs Case) bool {
 var judgeMoveOntoTarget = true
 
 func applicable(cs Case) bool {
+	if isCloseFail(cs) {
+		return cs.SrcFS == "root" && cs.Src == "present" && (cs.Dst == "missing" || cs.Dst == "shorter") &&
+			cs.Fault == nil && cs.Rel == "" && cs.Name == "" && cs.Spell == "" && cs.Conc == 0 && (cs.Op == "copy" || cs.Op == "move")
+	}
 	same := cs.SrcFS == cs.DstFS
 	if cs.Rel != "" {
 		if _, _, ok := relNames(cs.Rel); !ok {
@@ -253,6 +257,9 @@ func (cs Case) relTag() string {
 }
 
 func (cs Case) fsRel() string {
+	if isCloseFail(cs) {
+		return "closefail"
+	}
 	if cs.SrcFS == cs.DstFS {
 		return "samefs"
 	}
@@ -260,6 +267,9 @@ func (cs Case) fsRel() string {
 }
 
 func (cs Case) key(failure string) string {
+	if isCloseFail(cs) {
+		return fmt.Sprintf("%s:%s->%s:closefail:size=%d:%s", cs.Op, cs.Src, cs.Dst, cs.Size, failure)
+	}
 	return fmt.Sprintf("%s:%s->%s%s:%s:%s:%s", cs.Op, cs.Src, cs.Dst, cs.relTag(), cs.fsRel(), cs.Fault.keyString(), failure)
 }
 
@@ -826,7 +836,8 @@ type outcome struct {
 	renameHits int
 	harness    string // the check (not glb) failed on this case
 	skipped    string
-	outside    string // a refuting observation outside the stated quantifier (reported, not judged)
+	cf         *cfReport // closefail family: what the child reported
+	outside    string    // a refuting observation outside the stated quantifier (reported, not judged)
 	// concurrent cases
 	concCalls, concMax, concOverlap int64
 }
@@ -840,6 +851,9 @@ func runCase(cs Case, e *env, oc *outcome) (key, expected, observed string) {
 	}
 	if cs.Conc > 0 {
 		return runConcurrent(cs, e, oc)
+	}
+	if isCloseFail(cs) {
+		return runCloseFail(cs, e, oc)
 	}
 	l, err := e.build(cs)
 	if l != nil {
@@ -965,10 +979,12 @@ func errClass(s string) string {
 
 type mon struct{}
 
+var closeFailNote sync.Once
+
 func (mon) Name() string { return "filecopy" }
 
 func (mon) Level(prop string) (string, string) {
-	return "fault_enumeration", "BOTH TIERS: complete product of operation {CopyFile, MoveFile} × source size × source {present, missing, symlink to file} × destination {missing, shorter, longer, directory, parent missing, parent is a file, symlink to another file, dangling symlink, and the source itself as same path / ./ / dir/../ / symlink / relative symlink / hard link / symlink chain / through a directory symlink} × placement {root FS, tmpfs, across both (real EXDEV)}; a name-related family (source named destination+suffix or dot+destination+suffix and the reverse, in one directory, 14 temp/backup suffixes; also with MoveFile forced into its fallback); source-side aliasing (source path = symlink / 2- and 3-link symlink chain / ./-spelling / hard link of the file, destination = that file, another symlink to it, a hard link of it, each INTERMEDIATE link of the source's own chain, or a symlink pointing into that chain from outside (all links absolute); both operations, one and – for the symlink kinds – two file systems, also with MoveFile forced into its fallback); sizes above plausible internal limits (2 MiB+1, 4 MiB+3, 8 MiB+1, plain and sparse, missing/existing destination, both operations, real and forced EXDEV); concurrent calls (8 and 32 goroutines released together, CopyFile and MoveFile mixed, distinct ~300 KB files in shared directories, on one and across two file systems - where the data goes through the read/write loop and MoveFile through its fallback -, also at GOMAXPROCS=2); an enumerated list of failing steps inside the call (RLIMIT_FSIZE in a probe process; strace tampering: rename→EXDEV or another errno, copy_file_range/read/write/openat/fstat/unlinkat errors at the k-th call, k∈{1,2}). " +
+	return "fault_enumeration", "BOTH TIERS: complete product of operation {CopyFile, MoveFile} × source size × source {present, missing, symlink to file} × destination {missing, shorter, longer, directory, parent missing, parent is a file, symlink to another file, dangling symlink, and the source itself as same path / ./ / dir/../ / symlink / relative symlink / hard link / symlink chain / through a directory symlink} × placement {root FS, tmpfs, across both (real EXDEV)}; a name-related family (source named destination+suffix or dot+destination+suffix and the reverse, in one directory, 14 temp/backup suffixes; also with MoveFile forced into its fallback); source-side aliasing (source path = symlink / 2- and 3-link symlink chain / ./-spelling / hard link of the file, destination = that file, another symlink to it, a hard link of it, each INTERMEDIATE link of the source's own chain, or a symlink pointing into that chain from outside (all links absolute); both operations, one and – for the symlink kinds – two file systems, also with MoveFile forced into its fallback); sizes above plausible internal limits (2 MiB+1, 4 MiB+3, 8 MiB+1, plain and sparse, missing/existing destination, both operations, real and forced EXDEV); family closefail (fusefs.go): a FUSE file system emulated by the monitor inside its temp dir, in a child process with a private mount namespace, which accepts write(2) beyond a 100000-byte quota and reports ENOSPC only at close(2) like NFS/CIFS; controls first (a file below the quota arrives intact; a plain Write/Close of 3×quota gives nil/ENOSPC and a short file; rename onto it gives EXDEV), then CopyFile and MoveFile (through its fallback) of quota-1, quota, quota+1, 3×quota and 1 MiB+1 bytes onto a missing / existing shorter destination there; concurrent calls (8 and 32 goroutines released together, CopyFile and MoveFile mixed, distinct ~300 KB files in shared directories, on one and across two file systems - where the data goes through the read/write loop and MoveFile through its fallback -, also at GOMAXPROCS=2); an enumerated list of failing steps inside the call (RLIMIT_FSIZE in a probe process; strace tampering: rename→EXDEV or another errno, copy_file_range/read/write/openat/fstat/unlinkat errors at the k-th call, k∈{1,2}). " +
 		"THOROUGH ADDS (deep.go): every size 0..64, ±1 around 4 KiB / 32 KiB / 64 KiB / 1 MiB, 2–32 MiB and sparse sources; sources that are hard-linked or a symlink onto the other file system; destinations of equal length, same content, read-only, non-empty directory, symlink to a directory, symlink loop, symlink chain to another file, symlink to a (missing) file on the other file system, symlink→hard link and symlink→other-FS symlink→source aliases – each for both operations and all four placements; awkward names (spaces, unicode, newline, 250 bytes, leading dashes, shell metacharacters) and path spellings (trailing slash, dir/../dir, //, /./ on either side); a fault sweep that first lists the syscalls of a call on the two paths (strace -P) and then fails EVERY occurrence of each (openat, fstat, newfstatat, copy_file_range, read, write, rename*, unlinkat, …) with each of ENOSPC/EIO/EINTR/EDQUOT (the random shards add EACCES/EMFILE/ENOMEM/EROFS/EBUSY), for copy_file_range and for the read/write fallback; RLIMIT_FSIZE at byte 0, 1, size/3, page and buffer boundaries, size-1, size, size+1 (with copy_file_range disabled this yields genuine short write(2) counts); MoveFile forced into its fallback over every source and destination state; 2/8/32 concurrent calls on distinct files in shared directories; seeded random combinations of all dimensions including faults. " +
 		"Never handed to the code under test: device nodes, FIFOs or any path outside the monitor's own temp dirs. Judged by SHA-256+length snapshots before/after; distinct_nontrivial = distinct (op, size, source, destination, placement, name relation/style/spelling, fault, concurrency) tuples with a source present that were really executed"
 }
@@ -1026,6 +1042,8 @@ func (mon) Plan(prop, tier string, seed int64) []drv.Shard {
 	add("conc-q-shm-shm", shardArgs{Kind: "conc-quick", SrcFS: "shm", DstFS: "shm"}, 300)
 	add("conc-q-shm-root-gomaxprocs2", shardArgs{Kind: "conc-quick", SrcFS: "shm", DstFS: "root"}, 300)
 	out[len(out)-1].Env = []string{"GOMAXPROCS=2"}
+	// destination file system that reports write errors only at close(2) (fusefs.go)
+	add("closefail", shardArgs{Kind: "closefail"}, 600)
 	add("rlimit", shardArgs{Kind: "rlimit"}, 300)
 	exParts, inParts := 4, 10
 	if tier == "thorough" {
@@ -1307,6 +1325,8 @@ func casesFor(tier string, a shardArgs) []Case {
 		return largeCases(a, true)
 	case "conc-quick":
 		return concQuickCases(a)
+	case "closefail":
+		return closeFailCases()
 	case "rlimit":
 		return rlimitCases(tier)
 	case "exdev":
@@ -1439,8 +1459,34 @@ func (mn mon) Run(sh drv.Shard, c *drv.Ctx) {
 // record books what one case observed.
 func (mon) record(c *drv.Ctx, cs Case, oc *outcome, deep bool) {
 	if oc.skipped != "" {
+		if strings.HasPrefix(oc.skipped, "closefail:") {
+			// fuse / mount namespaces unavailable: the family is skipped and says so (a note, not inconclusive)
+			c.Add("closefail_rows_skipped", 1)
+			c.SetAdd("closefail_skipped_because", oc.skipped)
+			closeFailNote.Do(func() { c.Note("family closefail skipped: " + strings.TrimPrefix(oc.skipped, "closefail: ")) })
+			return
+		}
 		c.Add("skipped: "+oc.skipped, 1)
 		return
+	}
+	if oc.cf != nil && oc.ran {
+		c.Add("closefail_calls", 1)
+		if oc.cf.CtlCloseENOSPC {
+			c.Add("closefail_close_errors_seen_by_control", 1)
+		}
+		if oc.cf.SmallCopyOK {
+			c.Add("closefail_control_small_copy_intact", 1)
+		}
+		if oc.cf.RenameEXDEV {
+			c.Add("closefail_control_rename_gave_EXDEV", 1)
+		}
+		c.Add("closefail_flushes_answered_ENOSPC", int64(oc.cf.FailedFlushes))
+		if cs.Size > fuseQuota {
+			c.Add("closefail_calls_above_quota", 1)
+			if !oc.nilRet {
+				c.Add("closefail_above_quota_reported_as_error", 1)
+			}
+		}
 	}
 	if !oc.ran {
 		return
@@ -1656,6 +1702,18 @@ func (mn mon) Replay(v drv.Violation, c *drv.Ctx) {
 func main() {
 	if isProbe() {
 		probeMain()
+		return
+	}
+	if isCloseFailChild() {
+		closeFailChildMain()
+		return
+	}
+	if isCloseFailClient() {
+		closeFailClientMain()
+		return
+	}
+	if isCloseFailAbort() {
+		closeFailAbortMain()
 		return
 	}
 	drv.Main(mon{})
